@@ -34,3 +34,10 @@ Theorem C16_name_idempotent : forall l a, In l letters_z -> In a alts7 ->
   forall n, set_name (lower_name l a) = Some n -> set_name n = Some n.
 Proof. exact set_name_idempotent. Qed.
 Print Assumptions C16_name_idempotent.
+
+(* obligation regenerated from the source on every run: the code this property runs through keeps exactly the state the
+   model knows (no new attribute, class-level table, module-level binding or caching decorator), see proofs/State*Proofs.v *)
+From KV Require Import StateGen StateBase StatePitchProofs.
+Theorem C16_state_as_modelled : state_pitch = modelled_state_pitch.
+Proof. exact state_pitch_as_modelled. Qed.
+Print Assumptions C16_state_as_modelled.
